@@ -560,7 +560,10 @@ func (s *UtxoStore) deleteUnminedInputs(tx mwdb.DBTransaction, rec *TxRecord) er
 	for _, input := range rec.MsgTx.TxIn {
 		prevOut := &input.PreviousOutPoint
 		k := canonicalOutPoint(&prevOut.Hash, prevOut.Index)
-		spenders := existsRawUnminedInput(nsUnminedInputs, k)
+		spenders, err := nsUnminedInputs.Get(k)
+		if err != nil {
+			return err
+		}
 		if len(spenders) == 0 {
 			continue
 		}
